@@ -398,6 +398,69 @@ func c16Scenarios(thorough bool) []vScn {
 			return []string{"updU1", "updU2"}, []string{"reqA"}, nil
 		}))
 	}
+	// S7: a tuning update (worker count, cache sizes) while a connection has a call in the
+	// worker pool: the call is answered exactly once, the connection survives, the next call too
+	s7 := vScn{name: "S7-connection-call-vs-tuning-update", horizon: 30 * time.Minute, capD: 2, build: func() (func(), func(*vsched.Result) (string, []vScnBad)) {
+		var got []string
+		finished := false
+		root := func() {
+			vsched.SetQuiet(true)
+			e, err := vNewEnv(ExportOptions{AttrCacheTimeout: 1, MaxWorkers: 1}, c16Plant)
+			vMust(err, "env")
+			rootFH, err := e.mnt("/")
+			vMust(err, "mnt")
+			vsched.SetQuiet(false)
+			conn := newSConn("10.0.0.1", 900)
+			vsched.GoNamed("conn", func() { e.srv.handleConnectionWithRecordMarking(conn, e.h) })
+			vsched.GoNamed("updU", func() {
+				e.nfs.UpdateTuningOptions(func(t *TuningOptions) { t.MaxWorkers, t.AttrCacheSize, t.DirCacheMaxEntries = 2, 5, 3 })
+			})
+			vsched.GoNamed("client", func() {
+				var a wire.Enc
+				a.FH(rootFH).Str("f")
+				for x := uint32(1); x <= 2; x++ {
+					conn.feed(wire.Record(wire.Call(x, wire.ProgNFS, 3, wire.LOOKUP, vCredSys(0, 0, nil), a.B)))
+					rec, ok := conn.reply()
+					switch rp, err := wire.ParseReply(rec); {
+					case !ok:
+						got = append(got, "connection-closed")
+					case err != nil || rp.Xid != x:
+						got = append(got, "malformed")
+					case rp.Denied || rp.AcceptStat != 0:
+						got = append(got, "rpc-error")
+					default:
+						if res, derr := wire.DecodeNFS(wire.LOOKUP, rp.Result); derr != nil || res == nil {
+							got = append(got, "malformed-result")
+						} else {
+							got = append(got, wire.StatName(res.Status))
+						}
+					}
+				}
+				conn.closeClient()
+				finished = true
+			})
+		}
+		judge := func(res *vsched.Result) (string, []vScnBad) {
+			var bad []vScnBad
+			for _, p := range res.Panics {
+				bad = append(bad, vScnBad{"panic", p})
+			}
+			out := strings.Join(got, ",")
+			if !finished && !c17EarlyTimer(res) {
+				bad = append(bad, vScnBad{"call-never-answered-during-tuning-update", fmt.Sprintf("the client is blocked forever (replies so far: %s; blocked: %v)", out, res.Blocked)})
+				return "blocked", bad
+			}
+			if b := vNamedBlocked(res, "updU", "conn"); len(b) > 0 {
+				bad = append(bad, vScnBad{"update-or-connection-handler-blocks-forever", fmt.Sprintf("%v", b)})
+			}
+			if out != "OK,OK" && !c17EarlyTimer(res) { // an early read deadline legitimately ends the connection
+				bad = append(bad, vScnBad{"call-not-served-during-tuning-update", "two LOOKUPs on one connection during UpdateTuningOptions were answered: " + out})
+			}
+			return out, bad
+		}
+		return root, judge
+	}}
+	scns = append(scns, s7)
 	// S5: rate limiting switched on at runtime must bind connections that were already open
 	scns = append(scns, vScn{name: "S5-ratelimit-on-open-connection", horizon: time.Hour, build: func() (func(), func(*vsched.Result) (string, []vScnBad)) {
 		var summaries []string
